@@ -12,6 +12,7 @@ ROOT = Path(__file__).resolve().parent.parent
 
 def main():
     pid, rnd = sys.argv[1], sys.argv[2]
+    focus = sys.argv[3] if len(sys.argv) > 3 else ""
     prop = next(json.loads(l) for l in open(ROOT / "properties.jsonl") if json.loads(l)["id"] == pid)
     earlier = []
     for m in sorted(glob.glob(str(ROOT / "seeded" / f"{pid}*" / "meta.json"))):
@@ -31,6 +32,7 @@ Requirements for the change
      cd {wt} && cmake -G Ninja -B _build -S . -DBUILD_TESTS=ON -DBUILD_DOC=OFF -DCMAKE_BUILD_TYPE=RelWithDebInfo >/dev/null && cmake --build _build -j4 | tail -3 && ./_build/tests/tests | tail -3
    (expect '[  PASSED  ] 98 tests.').
 3. The violation must need something SPECIFIC to manifest - a particular multi-step sequence of API calls, an unusual but legitimate input/configuration, a particular alignment with an internal buffer, a crash or I/O fault at a particular point, a particular thread interleaving, or two cooperating sites that each look fine alone. Ordinary use (the obvious happy path, default parameters, a couple of records) must NOT expose it. Prefer triggers that are narrow (one value class, one boundary, one ordering) but perfectly legal under the property's wording. The property really must be violated under its own wording (not merely a neighbouring property).
+{("3b. Preferred kind of trigger for this change (if the property admits it; otherwise choose freely): " + focus) if focus else ""}
 4. It must be DIFFERENT in mechanism and in trigger from these earlier changes made for the same property (do not re-do them or near variants):
 {chr(10).join(earlier) if earlier else '- (none)'}
 5. Demonstration: {out}/demo.cpp - a self-contained program using the library's public headers that exits 0 when the property holds and exits 1 (printing what went wrong) when your change is applied. It is compiled as
